@@ -655,10 +655,33 @@ func writeReplay(env Env, id string, v *Violation) string {
 	meta := map[string]any{"property": id, "case": v.Case, "key": v.Key, "msg": v.Msg, "tier": env.Tier, "extra": v.Extra}
 	b, _ := json.MarshalIndent(meta, "", "  ")
 	os.WriteFile(filepath.Join(dir, "case.json"), b, 0o644)
+	var inputs []string
 	for name, content := range v.Files {
 		fp := filepath.Join(dir, "files", name)
 		os.MkdirAll(filepath.Dir(fp), 0o755)
 		os.WriteFile(fp, []byte(content), 0o644)
+		if strings.HasSuffix(name, ".yaml") {
+			inputs = append(inputs, name)
+		}
+	}
+	// a plain script that runs the real CLI on the recorded input, without the harness
+	if len(inputs) > 0 {
+		sort.Strings(inputs)
+		args := ""
+		if a := anyStrings(v.Extra["args"]); len(a) > 0 {
+			args = strings.Join(quoteAll(a), " ")
+		} else {
+			for _, in := range inputs {
+				args += " -i " + in
+			}
+			args += " -o out.go"
+			if fl := anyStrings(v.Extra["flags"]); len(fl) > 0 {
+				args += " " + strings.Join(fl, " ")
+			}
+		}
+		sh := "#!/usr/bin/env bash\n# replays the recorded input of this violation with the real CLI (no harness involved)\n" +
+			"export GOFLAGS=-mod=mod GOPROXY=off GOSUMDB=off GOTOOLCHAIN=local\ncd \"$(dirname \"$0\")/files\" && go run " + env.Repo + " build " + args + "; echo \"exit status: $?\"\n"
+		os.WriteFile(filepath.Join(dir, "replay.sh"), []byte(sh), 0o755)
 	}
 	return dir
 }
@@ -833,4 +856,28 @@ func outRoot(env Env) string {
 		return o
 	}
 	return env.Verif
+}
+
+func quoteAll(a []string) []string {
+	out := make([]string, len(a))
+	for i, x := range a {
+		out[i] = "'" + strings.ReplaceAll(x, "'", "'\\''") + "'"
+	}
+	return out
+}
+
+func anyStrings(v any) []string {
+	switch x := v.(type) {
+	case []string:
+		return x
+	case []any:
+		var out []string
+		for _, e := range x {
+			if s, ok := e.(string); ok {
+				out = append(out, s)
+			}
+		}
+		return out
+	}
+	return nil
 }
